@@ -4,6 +4,22 @@ From Scenic Require Import C17.Vec C17.Visibility C17.VisibilityProofs C17.Grid.
 Import ListNotations.
 Open Scope Q_scope.
 
+Lemma strip2_correct : forall n d n' d', strip2 n d = (n', d') -> (Zpos n * Zpos d' = Zpos n' * Zpos d)%Z.
+Proof.
+  induction n as [n IH|n IH|]; intros d n' d' H; cbn [strip2] in H; try (inversion H; subst; reflexivity).
+  destruct d as [d|d|]; try (inversion H; subst; reflexivity).
+  specialize (IH d n' d' H). rewrite (Pos2Z.inj_xO n), (Pos2Z.inj_xO d). nia.
+Qed.
+
+Lemma Qred2_correct : forall q, Qred2 q == q.
+Proof.
+  intros [[|n|n] d]; unfold Qred2; cbn [Qnum Qden].
+  - reflexivity.
+  - destruct (strip2 n d) as [a b] eqn:E. apply strip2_correct in E. unfold Qeq. cbn [Qnum Qden]. lia.
+  - destruct (strip2 n d) as [a b] eqn:E. apply strip2_correct in E. unfold Qeq. cbn [Qnum Qden].
+    rewrite <- !Pos2Z.opp_pos. lia.
+Qed.
+
 (* ================================================================== (a) crosses flags *)
 (* the y coordinate at which the segment a->b meets the plane x = 0, as coded *)
 Lemma edge_cross_some : forall a b,
@@ -60,12 +76,15 @@ Lemma edge_t_spec : forall a b t, edge_t (a, b) = Some t ->
   0 < t /\ t < 1 /\ ~ alt_N a b + alt_M a b == 0 /\ t == alt_N a b / (alt_N a b + alt_M a b).
 Proof.
   intros a b t H. unfold edge_t in H.
-  destruct (Qeq_bool (alt_N a b + alt_M a b) 0) eqn:E0; [discriminate|].
+  destruct (Qeq_bool (Qred2 (alt_N a b + alt_M a b)) 0) eqn:E0; [discriminate|].
   destruct (Qltb 0 _ && Qltb _ 1) eqn:E1; [|discriminate].
-  inversion H; subst. apply andb_true_iff in E1 as [A B].
-  apply Qltb_true in A. apply Qltb_true in B.
-  split; [exact A|]. split; [exact B|]. split; [|reflexivity].
-  intro E. apply Qeq_bool_neq in E0. contradiction.
+  assert (Ht : t = Qred (alt_N a b / Qred2 (alt_N a b + alt_M a b))) by congruence. clear H.
+  apply andb_true_iff in E1 as [A B]. apply Qltb_true in A. apply Qltb_true in B.
+  assert (Et : t == alt_N a b / (alt_N a b + alt_M a b)).
+  { rewrite Ht, Qred_correct, Qred2_correct. reflexivity. }
+  rewrite Qred2_correct in A, B. rewrite <- Et in A, B.
+  split; [exact A|]. split; [exact B|]. split; [|exact Et].
+  intro E. apply Qeq_bool_neq in E0. apply E0. rewrite Qred2_correct. exact E.
 Qed.
 
 Theorem extras_on_edges : forall edges p,
@@ -93,8 +112,8 @@ Theorem altitude_stationary_numerator : forall a b t,
   - vz (lerp a b t) * ((vx b - vx a) * vx (lerp a b t) + (vy b - vy a) * vy (lerp a b t))
   == alt_N a b - (alt_N a b + alt_M a b) * t.
 Proof.
-  intros [x1 y1 z1] [x2 y2 z2] t. unfold rho2, lerp, alt_N, alt_M, alt_D.
-  cbn [vx vy vz vadd vscale vsub]. ring.
+  intros [x1 y1 z1] [x2 y2 z2] t. unfold rho2, lerp, alt_N, alt_M.
+  repeat (setoid_rewrite Qred2_correct). unfold alt_D. cbn [vx vy vz vadd vscale vsub]. ring.
 Qed.
 
 (* an edge on which the code adds no point has no interior stationary point of the altitude *)
@@ -106,12 +125,12 @@ Corollary no_extra_no_stationary : forall a b t,
 Proof.
   intros a b t H Ht0 Ht1 Hdeg E. rewrite altitude_stationary_numerator in E.
   unfold edge_t in H.
-  destruct (Qeq_bool (alt_N a b + alt_M a b) 0) eqn:E0.
-  - apply Qeq_bool_iff in E0. apply Hdeg. rewrite E0 in E. split; lra.
-  - apply Qeq_bool_neq in E0.
+  destruct (Qeq_bool (Qred2 (alt_N a b + alt_M a b)) 0) eqn:E0.
+  - apply Qeq_bool_iff in E0. rewrite Qred2_correct in E0. apply Hdeg. rewrite E0 in E. split; lra.
+  - apply Qeq_bool_neq in E0. rewrite Qred2_correct in E0.
     assert (Et : t == alt_N a b / (alt_N a b + alt_M a b)) by (field_simplify_eq; [lra|exact E0]).
     destruct (Qltb 0 _ && Qltb _ 1) eqn:E1; [discriminate|].
-    apply andb_false_iff in E1 as [A|A]; apply Qltb_false in A; rewrite <- Et in A; lra.
+    apply andb_false_iff in E1 as [A|A]; apply Qltb_false in A; rewrite Qred2_correct, <- Et in A; lra.
 Qed.
 
 (* the windows are computed from every mesh vertex AND every interpolated point *)
@@ -135,7 +154,7 @@ Section ObjectWindowProofs.
                exists w, In w ws /\ in_win w az alt.
   Proof.
     intros h v verts edges p H1 H2 H3 Hin az alt A B C D.
-    unfold object_windows.
+    unfold object_windows, windows_of_angles, object_angles.
     assert (Hm : In (az, alt) (map (sph PI atan2 asin norm) (augment verts edges))).
     { replace (az, alt) with (sph PI atan2 asin norm p) by (subst az alt; destruct (sph PI atan2 asin norm p); reflexivity).
       apply in_map. exact Hin. }
@@ -145,7 +164,7 @@ Section ObjectWindowProofs.
 
   Lemma sph_az_range : forall w, - PI <= fst (sph PI atan2 asin norm w) /\ fst (sph PI atan2 asin norm w) < PI.
   Proof.
-    intro w. unfold sph, wrap_az. cbn [fst].
+    intro w. unfold sph, wrap_az. cbn [fst]. rewrite Qred_correct.
     assert (H2 : 0 < 2 * PI) by lra.
     destruct (qmod_range (atan2 (vy w) (vx w) - PI / 2 + PI) (2 * PI) H2). lra.
   Qed.
@@ -164,6 +183,7 @@ Proof.
   - contradiction.
   - destruct Hin as [<-|[]]. split; [apply Qle_refl|exact Hle].
   - unfold linspace in Hin. apply in_map_iff in Hin as (i & <- & Hi). apply in_seq in Hi.
+    rewrite !Qred_correct.
     set (k := inject_Z (Z.of_nat (S m))).
     set (iq := inject_Z (Z.of_nat i)).
     assert (Hk : 0 < k) by (subst k; change 0 with (inject_Z 0); rewrite <- Zlt_Qlt; lia).
@@ -183,13 +203,22 @@ Lemma linspace_endpoints : forall lo hi n, (2 <= n)%nat ->
 Proof.
   intros lo hi [|[|m]] Hn; try lia.
   unfold linspace. split.
-  - exists (lo + inject_Z (Z.of_nat 0) * ((hi - lo) / inject_Z (Z.of_nat (S m)))). split.
+  - exists (Qred lo + inject_Z (Z.of_nat 0) * Qred ((hi - lo) / inject_Z (Z.of_nat (S m)))). split.
     + apply in_map_iff. exists 0%nat. split; [reflexivity|apply in_seq; lia].
-    + change (inject_Z (Z.of_nat 0)) with 0. ring.
-  - exists (lo + inject_Z (Z.of_nat (S m)) * ((hi - lo) / inject_Z (Z.of_nat (S m)))). split.
+    + rewrite !Qred_correct. change (inject_Z (Z.of_nat 0)) with 0. ring.
+  - exists (Qred lo + inject_Z (Z.of_nat (S m)) * Qred ((hi - lo) / inject_Z (Z.of_nat (S m)))). split.
     + apply in_map_iff. exists (S m). split; [reflexivity|apply in_seq; lia].
     + assert (Hk : 0 < inject_Z (Z.of_nat (S m))) by (change 0 with (inject_Z 0); rewrite <- Zlt_Qlt; lia).
-      field. lra.
+      rewrite !Qred_correct. field. lra.
+Qed.
+
+Lemma linspace_shape : forall (lo hi : Q) (n : nat),
+  length (linspace lo hi n) = n /\
+  (lo <= hi -> forall x, In x (linspace lo hi n) -> lo <= x /\ x <= hi) /\
+  ((2 <= n)%nat -> (exists x, In x (linspace lo hi n) /\ x == lo) /\ (exists x, In x (linspace lo hi n) /\ x == hi)).
+Proof.
+  intros lo hi n. split; [exact (linspace_length lo hi n)|].
+  split; [intros H x; exact (linspace_bounds lo hi n x H) | exact (linspace_endpoints lo hi n)].
 Qed.
 
 Section GridProofs.
@@ -201,9 +230,9 @@ Section GridProofs.
     window_rays cos h v rch rcv altscale w = Some rays -> In (az, alt) rays -> in_win w az alt.
   Proof.
     intros w rays az alt E Hin. unfold window_rays in E.
-    destruct (negb (Qltb 0 (h_hi w - h_lo w)) || negb (Qltb 0 (v_hi w - v_lo w))) eqn:Es; [discriminate|].
+    destruct (negb (Qltb 0 (Qred (h_hi w - h_lo w))) || negb (Qltb 0 (Qred (v_hi w - v_lo w)))) eqn:Es; [discriminate|].
     apply orb_false_iff in Es as [Eh Ev]. apply negb_false_iff in Eh, Ev.
-    apply Qltb_true in Eh. apply Qltb_true in Ev.
+    apply Qltb_true in Eh. apply Qltb_true in Ev. rewrite Qred_correct in Eh, Ev.
     assert (Hh : h_lo w <= h_hi w) by lra. assert (Hv : v_lo w <= v_hi w) by lra.
     inversion E; subst; clear E. unfold in_win.
     destruct altscale.
@@ -234,9 +263,9 @@ Section GridProofs.
     window_rays cos h v rch rcv altscale w = Some rays -> h_lo w < h_hi w /\ v_lo w < v_hi w.
   Proof.
     intros w rays E. unfold window_rays in E.
-    destruct (negb (Qltb 0 (h_hi w - h_lo w)) || negb (Qltb 0 (v_hi w - v_lo w))) eqn:Es; [discriminate|].
+    destruct (negb (Qltb 0 (Qred (h_hi w - h_lo w))) || negb (Qltb 0 (Qred (v_hi w - v_lo w)))) eqn:Es; [discriminate|].
     apply orb_false_iff in Es as [Eh Ev]. apply negb_false_iff in Eh, Ev.
-    apply Qltb_true in Eh. apply Qltb_true in Ev. lra.
+    apply Qltb_true in Eh. apply Qltb_true in Ev. rewrite Qred_correct in Eh, Ev. lra.
   Qed.
 End GridProofs.
 
@@ -323,7 +352,7 @@ Theorem object_pipeline_rays_inside_view :
   - (h / 2) <= az /\ az <= h / 2 /\ - (v / 2) <= alt /\ alt <= v / 2.
 Proof.
   intros PI atan2 asin norm cos h v rch rcv altscale verts edges ws rays az alt HPI Hh Hv Ew Er Hin.
-  unfold object_windows in Ew.
+  unfold object_windows, windows_of_angles, object_angles in Ew.
   destruct (map (sph PI atan2 asin norm) (augment verts edges)) as [|a0 angs] eqn:Em; [discriminate|].
   eapply rays_inside_view; try eassumption.
   intros a Ha. rewrite <- Em in Ha. apply in_map_iff in Ha as (p & <- & _).
@@ -434,7 +463,7 @@ End TwoDProofs.
 (* non-vacuity witnesses (toy oracles of Visibility.v) *)
 Example grid_example :
   object_rays (fun _ => 1) 2 2 4 4 true [Win (-(1#2)) (1#2) 0 1] =
-  Some [(-4 # 8, 0); (4 # 8, 0); (-4 # 8, 1); (4 # 8, 1)].
+  Some [(-1 # 2, 0); (1 # 2, 0); (-1 # 2, 1); (1 # 2, 1)].
 Proof. vm_compute. reflexivity. Qed.
 
 Example sector_example :
